@@ -1036,7 +1036,9 @@ def make_segment(data, mode, encoding=None):
     guessed_mode = find_mode(segment_data) if segment_mode != consts.MODE_BYTE else consts.MODE_BYTE
     if segment_mode is not None:
         # Check if user provided mode is applicable for the given segment_data
-        if segment_mode < guessed_mode:
+        if segment_mode < guessed_mode \
+                or segment_length and (segment_mode == consts.MODE_KANJI and not is_kanji(segment_data)
+                                       or segment_mode == consts.MODE_HANZI and not is_hanzi(segment_data)):
             raise ValueError(f'The provided mode "{get_mode_name(segment_mode)}" '
                              f'is not applicable for {segment_data!r}. '
                              f'Proposal: {get_mode_name(guessed_mode)}')
@@ -1344,6 +1346,24 @@ def is_kanji(data):
     for i in range(0, data_len, 2):
         code = (next(data_iter) << 8) | next(data_iter)
         if not (0x8140 <= code <= 0x9ffc or 0xe040 <= code <= 0xebbf) or not 0x40 <= code & 0xff <= 0xfc:
+            return False
+    return True
+
+
+def is_hanzi(data):
+    """\
+    Returns if the `data` can be encoded in "hanzi" mode.
+
+    :param bytes data: The data to check.
+    :rtype: bool
+    """
+    data_len = len(data)
+    if not data_len or data_len % 2:
+        return False
+    data_iter = iter(data)
+    for i in range(0, data_len, 2):
+        code = (next(data_iter) << 8) | next(data_iter)
+        if not (0xa1a1 <= code <= 0xaafe or 0xb0a1 <= code <= 0xfafe) or not 0xa1 <= code & 0xff <= 0xfe:
             return False
     return True
 
